@@ -139,7 +139,17 @@ def apply_mask(
         return np.asarray(items)[masks]
     result = []
     for elem, mask in zip(items, masks, strict=True):
-      if mask == True:  # pylint: disable=singleton-comparison
+      # A nested array-like mask (e.g., a numpy mask per example) is applied
+      # recursively, it cannot be compared to a literal boolean.
+      if types.is_array_like(mask):
+        result.append(
+            apply_mask(
+                elem,
+                masks=mask,
+                replace_false_with=replace_false_with,
+            )
+        )
+      elif mask == True:  # pylint: disable=singleton-comparison
         result.append(elem)
       elif mask == False:  # pylint: disable=singleton-comparison
         if replace_false_with != DEFAULT_FILTER:
@@ -164,7 +174,13 @@ def apply_mask(
     result = {}
     for key, mask in masks.items():
       value = items.get(key)
-      if mask == True:  # pylint: disable=singleton-comparison
+      if types.is_array_like(mask):
+        result[key] = apply_mask(
+            value,
+            masks=mask,
+            replace_false_with=replace_false_with,
+        )
+      elif mask == True:  # pylint: disable=singleton-comparison
         result[key] = value
       elif mask == False:  # pylint: disable=singleton-comparison
         if replace_false_with != DEFAULT_FILTER:
